@@ -30,14 +30,21 @@ open Embit Embit.Crypto Embit.Model Embit.Model.SignWith Embit.Driver Embit.Keys
 def realHashes : Hashes := ⟨Driver.Hs, KeyDrv.keyEnv none none⟩
 
 /-- the curve record of the key models the signing model runs over: the BRIDGED record of the C07 / C08 curve
-    (`toKeys Crypto.secpOps`), so that the object corresponded with embit is the object `Props/C02Y` speaks about -/
+    (`toKeys Driver.E`, `Driver.E` = the lawful record `Crypto.secpLawful`), so that the object corresponded with embit
+    is the object `Props/C02Y` / `Props/C02Z` speak about -/
 abbrev HD := HDKey (toKeys Driver.E)
 def env : Env := realHashes.env
 
 /-- the `Ops` instance of the driver IS `opsOf` over the executable secp256k1 and the executable hashes -/
 def concreteOps : Ops HD := opsOf Driver.E realHashes Driver.fuel
 
-/-- tokens are parsed over the key driver's curve record; both records have `Secp.Pt` as their points -/
+/-- the key predicates `PSBT.parse` uses in the `sign.*` ops: the parsers of the key model over the same curve record
+    (`keyOpsOf`, the instance `Props/C02Y.parsed_added_sigs_valid` speaks about); the extended-key predicate (no role in
+    the theorems) is the one of the other PSBT ops -/
+def signKeyOps : KeyOps := keyOpsOf Driver.E concreteKeyOps.validXpub
+
+/-- tokens are parsed over the key driver's curve record, which is the same record (`KeyDrv.secpOps` is
+    `toKeys Crypto.secpLawful` by definition) -/
 def convKey : KeyObj KeyDrv.secpOps → KeyObj (toKeys Driver.E)
   | .priv k => .priv k
   | .pub k => .pub ⟨k.point, k.compressed⟩
@@ -95,7 +102,7 @@ def handle (op : String) (args : List String) : Option String :=
   match op with
   | "sign.run" => do
     let (sg, a, b) ← runTok (do let sg ← tokSigner; let a ← tokOptNat; let b ← tokBytes; pure (sg, a, b)) args
-    match Psbt.parse concreteKeyOps sha256 0 b with
+    match Psbt.parse signKeyOps Driver.Hs.sha256 0 b with
     | none => pure "none"
     | some p =>
       match signWith concreteOps sg a p with
@@ -105,7 +112,7 @@ def handle (op : String) (args : List String) : Option String :=
           ++ showPsbt { p' with inputs := p'.inputs.map canonIn })
   | "sign.trace" => do
     let (sg, a, b) ← runTok (do let sg ← tokSigner; let a ← tokOptNat; let b ← tokBytes; pure (sg, a, b)) args
-    match Psbt.parse concreteKeyOps sha256 0 b with
+    match Psbt.parse signKeyOps Driver.Hs.sha256 0 b with
     | none => pure "none"
     | some p =>
       match signWith concreteOps sg a p with
@@ -114,7 +121,7 @@ def handle (op : String) (args : List String) : Option String :=
         pure (joinToks (["ok", toString n] ++ ws.flatMap fun (i, sl, v) => [toString i, showSlot sl, toHexP v]))
   | "sign.verify" => do
     let (sg, a, b) ← runTok (do let sg ← tokSigner; let a ← tokOptNat; let b ← tokBytes; pure (sg, a, b)) args
-    match Psbt.parse concreteKeyOps sha256 0 b with
+    match Psbt.parse signKeyOps Driver.Hs.sha256 0 b with
     | none => pure "none"
     | some p =>
       match signWith concreteOps sg a p with
@@ -123,7 +130,7 @@ def handle (op : String) (args : List String) : Option String :=
         pure ("ok " ++ toString (ws.filter (fun w => !writeValid Driver.E Driver.Hs p w)).length ++ " " ++ toString ws.length)
   | "sign.view" => do
     let (sg, a, b) ← runTok (do let sg ← tokSigner; let a ← tokOptNat; let b ← tokBytes; pure (sg, a, b)) args
-    match Psbt.parse concreteKeyOps sha256 0 b with
+    match Psbt.parse signKeyOps Driver.Hs.sha256 0 b with
     | none => pure "none"
     | some p =>
       match viewSignWith concreteOps sg a p with
